@@ -249,8 +249,10 @@ CLAIMED["C16"] = dict(
          "with the delimiter at the FIRST place where the bytes read since the previous segment end with it, or reaches the end of "
          "the file; end of data is reported exactly when nothing is left (readUntil_partition, readUntil_none_iff); reading a line is "
          "reading until newline (readLine_eq_readUntil); the segments of a piecewise read concatenate to exactly the file's bytes, "
-         "for every file and delimiter (readAll_concat, until_all, lines_all).",
-    note="PARTIAL: gp_file_read_strip (maximal runs of code points outside the set, last run without trailing delimiter) and "
+         "for every file and delimiter (readAll_concat, until_all, lines_all); on a file made of whole code points gp_file_read_strip, read "
+         "piece by piece, yields exactly the maximal runs of code points outside the set, in order, every run non-empty, together "
+         "holding every code point outside the set and nothing else (strip_all via readStrip_chunks, runs_flatten, runs_nonempty).",
+    note="PARTIAL: gp_file_read_strip on files with bytes that are not lead bytes or that end inside a sequence, and "
          "gp_str_file (round trip, append, failure codes under /dev/full, missing file, directory) are modelled and checked by "
          "correspondence and the reference partition only - OS behaviour is not a theorem. Not provokable here: unreadable file (the "
          "sandbox runs as root), size change between stat and read. Trusted: harness c16.c, driver.",
